@@ -528,16 +528,30 @@ class Interp:
                 self._stat("make_with_caller_kwargs")
                 if any(k in m["kwargs"] and not _same(m["kwargs"][k], v) for k, v in kw.items()):
                     self._stat("make_caller_overrides_registered_value")
-            if r[0] == "exc":
+            import importlib
+
+            cls = getattr(importlib.import_module(m["entry"].split(":")[0]), m["entry"].split(":")[1])
+            want = dict(m["kwargs"])
+            want.update(kw)
+            # reference: the registered class called with the caller's positional arguments and registered | caller kwargs
+            ref = _call(cls, *copy.deepcopy(args), **copy.deepcopy(want))
+            if args:
+                self._stat("make_with_positional_args")
+            if ref[0] == "exc":
+                self._stat("make_constructor_rejects")
+                if r[0] == "ret":
+                    fails.append(("make.builds", "make succeeded although the constructor rejects these arguments",
+                                  f"make({s!r}, *{args!r}, **{kw!r}) returned kwargs={getattr(r[1], 'kwargs', None)!r}; "
+                                  f"{cls.__name__}(*{args!r}, **{want!r}) raises {ref[1]!r}"))
+                elif type(r[1]) is not type(ref[1]):
+                    fails.append(("make.builds", f"make raised {type(r[1]).__name__} instead of the constructor's {type(ref[1]).__name__}",
+                                  f"make({s!r}, *{args!r}, **{kw!r}) raised {r[1]!r}"))
+            elif r[0] == "exc":
                 fails.append(("make.builds", f"make of a registered id raised {type(r[1]).__name__}",
                               f"make({s!r}, *{args!r}, **{kw!r}) raised {r[1]!r}"))
             else:
-                import importlib
-
                 inst = r[1]
-                cls = getattr(importlib.import_module(m["entry"].split(":")[0]), m["entry"].split(":")[1])
-                want = dict(m["kwargs"])
-                want.update(kw)
+                args, want = list(ref[1].args), dict(ref[1].kwargs)   # as bound by the constructor itself
                 if type(inst) is not cls:
                     fails.append(("make.builds", "instance is not of the registered class",
                                   f"make({s!r}) built {type(inst).__name__}; registered {m['entry']}"))
@@ -581,7 +595,7 @@ def run_ops(ops):
 def build_machine(ctx: Ctx, max_args: int = 2):
     from hypothesis.stateful import RuleBasedStateMachine, rule
 
-    entry = st.sampled_from(["Recorder", "Recorder", "Recorder2", "vf.dummy2:Recorder"])
+    entry = st.sampled_from(["Recorder", "Recorder", "Recorder2", "vf.dummy2:Recorder", "Named", "Named"])
     style = st.sampled_from(["kw", "pos"])
     args = st.lists(st.sampled_from([0, 1, "p", None]), max_size=max_args)
 
